@@ -3,7 +3,7 @@
    Spec:  Spec/C11Spec.v (expected constraints, chain reader, JS string reading, oracle, domain, classes).
    Only statements, [exact], examples and [Print Assumptions] live here. *)
 From Coq Require Import String Ascii List Arith Bool ZArith.
-Require Import TT.Model.Str TT.Model.C11Validator TT.Spec.C11Spec TT.Proofs.C11Proofs TT.Proofs.C11Scan TT.Proofs.C11Loop TT.Proofs.C11Esc TT.Proofs.C11Arr TT.Proofs.C11Full.
+Require Import TT.Model.Str TT.Model.C11Validator TT.Spec.C11Spec TT.Proofs.C11Proofs TT.Proofs.C11Scan TT.Proofs.C11Loop TT.Proofs.C11Esc TT.Proofs.C11Arr TT.Proofs.C11Full TT.Proofs.C11FullS.
 Require TT.Proofs.C11Dec.
 Import ListNotations.
 
@@ -143,6 +143,45 @@ Theorem C11_loop_exact_partial : forall dispf ss, Forall sattr_ok ss ->
   parse_validator_attributes dispf (map attr_of ss) =
   Ok (if existsb is_val ss then Some (fold_left (effect dispf) ss va_init) else None).
 Proof. exact loop_exact. Qed.
+(* THE FULL STATEMENT ON THE LOOP GRAMMAR (String fields): any attribute list  A ++ [#[validate(pr.., length(..), po..)]] ++ B
+   where A and B are lists of attributes without length / range (#[validate(sides..)], #[validate()], #[validate],
+   other attributes), sides = email / url flags and other validators (inert: side_ok), at most one email and one
+   url over all side items (the in_domain clause count <= 1), u64 bounds, admissible message with msg_agrees:
+   field_chain does not panic and the oracle accepts the chain, under k Options, for every dispf *)
+Theorem C11_full_loop_string_partial : forall dispf k o omin omax omsg pr po A B,
+  oku64 omin -> oku64 omax -> okm omsg -> msg_agrees omsg -> sides_ok pr -> sides_ok po ->
+  forallb nolr A = true -> forallb nolr B = true -> Forall sattr_ok A -> Forall sattr_ok B ->
+  cnt FE ((all_sides A ++ pr) ++ po ++ all_sides B) <= 1 -> cnt FU ((all_sides A ++ pr) ++ po ++ all_sides B) <= 1 ->
+  exists v chain, field_chain dispf (loop_field k o omin omax omsg pr po A B) = Ok (v, chain) /\
+                  c11_field_ok (loop_field k o omin omax omsg pr po A B) chain = true.
+Proof. exact full_loop_string. Qed.
+(* ... the same attribute lists on Vec<T>, T any readable element type, no email / url among the side items (outside
+   the domain on a Vec), other validators at will *)
+Theorem C11_full_loop_vec_partial : forall dispf k o omin omax omsg pr po A B,
+  oku64 omin -> oku64 omax -> okm omsg -> msg_agrees omsg -> sides_ok pr -> sides_ok po ->
+  forallb nolr A = true -> forallb nolr B = true -> Forall sattr_ok A -> Forall sattr_ok B ->
+  forall ti, readable (tstruct_of ti) = true ->
+  cnt FE ((all_sides A ++ pr) ++ po ++ all_sides B) = 0 -> cnt FU ((all_sides A ++ pr) ++ po ++ all_sides B) = 0 ->
+  exists v chain, field_chain dispf (loop_field_vec k o omin omax omsg pr po A B ti) = Ok (v, chain) /\
+                  c11_field_ok (loop_field_vec k o omin omax omsg pr po A B ti) chain = true.
+Proof. intros dispf k o omin omax omsg pr po A B H1 H2 H3 H4 H5 H6 H7 H8 H9 H10 ti Hr Z0 Z1.
+  apply (full_loop_vec dispf k o omin omax omsg pr po A B H1 H2 H3 H4 H5 H6 H7 H8 H9 H10); try assumption; rewrite ?Z0, ?Z1; auto. Qed.
+(* ... the same attribute lists around one RANGE validator on a numeric field (no email / url: outside the domain on
+   a number), for every dispf that is exact on the declared bounds (okb dispf, the complement of class C11-9) *)
+Theorem C11_full_loop_num_partial : forall dispf k o omin omax omsg pr po A B,
+  okb dispf omin -> okb dispf omax -> okm omsg -> msg_agrees omsg -> sides_ok pr -> sides_ok po ->
+  forallb nolr A = true -> forallb nolr B = true -> Forall sattr_ok A -> Forall sattr_ok B ->
+  cnt FE ((all_sides A ++ pr) ++ po ++ all_sides B) = 0 -> cnt FU ((all_sides A ++ pr) ++ po ++ all_sides B) = 0 ->
+  exists v chain, field_chain dispf (loop_field_num k o omin omax omsg pr po A B) = Ok (v, chain) /\
+                  c11_field_ok (loop_field_num k o omin omax omsg pr po A B) chain = true.
+Proof. exact full_loop_num. Qed.
+(* ... and String fields WITHOUT length: only flags and other validators, e.g. #[validate(email)], #[validate(url, required)] *)
+Theorem C11_full_flags_string_partial : forall dispf k A, forallb nolr A = true -> Forall sattr_ok A -> existsb is_val A = true ->
+  cnt FE (all_sides A) <= 1 -> cnt FU (all_sides A) <= 1 ->
+  let f := {| f_ty := opt_ty k TyString; f_attrs := map attr_of A |} in
+  exists v chain, field_chain dispf f = Ok (v, chain) /\ c11_field_ok f chain = true.
+Proof. exact full_flags_string. Qed.
+
 (* the side condition is exact: if the token string of an attribute contains one of the four keywords - for instance
    inside one of its items (second theorem) - the step is NOT inert: the flag is set / the slot is occupied *)
 Theorem C11_other_validators_condition_exact : forall dispf v T v', va_step dispf v T = Ok v' ->
@@ -327,6 +366,30 @@ Example C11_ex_full_canon_premises :
   readable (tstruct_of (TyOpt (TyVec (TyCustom (L "Item"))))) = true.
 Proof. repeat split; try (vm_compute; reflexivity); eexists; eexists; repeat split; vm_compute; reflexivity. Qed.
 
+(* an instance of the loop-grammar full theorem: its premises hold, and the field lies in the domain of
+   C11_exact_full_statement (in_domain, lits_consistent, outside every class) *)
+Definition ex_loop_field : field :=
+  loop_field 1 4 (Some (L "007")) None (Some (text ex_lit))
+    [SdO (L "custom") (Some [(L "function", L """check_name""")]); SdF FU] [SdO (L "required") None]
+    [SFlags [SdF FE]; SOther] [SPath; SFlags [SdO (L "nested") None]].
+Example C11_ex_full_loop_premises :
+  sides_ok [SdO (L "custom") (Some [(L "function", L """check_name""")]); SdF FU] /\ sides_ok [SdO (L "required") None] /\
+  Forall sattr_ok [SFlags [SdF FE]; SOther] /\ Forall sattr_ok [SPath; SFlags [SdO (L "nested") None]] /\
+  (in_domain ex_loop_field && lits_consistent ex_loop_field && negb (kf_any dispf_small ex_loop_field) &&
+   match field_chain dispf_small ex_loop_field with Ok (_, chain) => c11_field_ok ex_loop_field chain | Panic => false end) = true.
+Proof. repeat split; try (repeat constructor); vm_compute; reflexivity. Qed.
+
+Example C11_ex_full_more_premises :
+  let A := [SFlags [SdF FE; SdO (L "required") None]; SPath; SOther] in
+  let B := [SFlags [SdO (L "nested") None]] in
+  (forallb nolr A = true /\ existsb is_val A = true /\ forallb nolr B = true /\
+   cnt FE ((all_sides B ++ []) ++ [SdO (L "required") None] ++ all_sides []) = 0 /\
+   cnt FU ((all_sides B ++ []) ++ [SdO (L "required") None] ++ all_sides []) = 0 /\
+   readable (tstruct_of (TyOpt (TyCustom (L "Item")))) = true) /\
+  cnt FE (all_sides A) <= 1 /\ cnt FU (all_sides A) <= 1 /\ Forall sattr_ok A /\ Forall sattr_ok B.
+Proof. split; [repeat split; vm_compute; reflexivity|]. split; [vm_compute; auto|]. split; [vm_compute; auto|].
+  split; repeat constructor; vm_compute; reflexivity. Qed.
+
 Example C11_ex_escapes :
   let l := [Plain "a"; Esc dq; Plain "b"; Esc dq; Plain " "; Esc bs; Plain " "; Esc "n"; Esc "t"; Esc sq; Esc bs; Esc "n"] in
   lit_ok l = true /\ text l = L "a\""b\"" \\ \n\t\'\\\n" /\ value l = L "a""b"" \ " ++ [nl; tab; sq; bs; nl].
@@ -345,6 +408,10 @@ Print Assumptions C11_full_canon_length_partial.
 Print Assumptions C11_full_canon_length_vec_partial.
 Print Assumptions C11_full_canon_range_partial.
 Print Assumptions C11_loop_exact_partial.
+Print Assumptions C11_full_loop_string_partial.
+Print Assumptions C11_full_loop_vec_partial.
+Print Assumptions C11_full_loop_num_partial.
+Print Assumptions C11_full_flags_string_partial.
 Print Assumptions C11_other_validators_condition_exact.
 Print Assumptions C11_keyword_in_item.
 Print Assumptions C11_loop_escaped_messages.
